@@ -1793,7 +1793,9 @@ func init() {
 		// depends on the selection state only (= C04 R04i): a node that a private shortcut declines to mark stays linked
 		// under its parent for ever (seed C17-7: attribute-only filters decided at the start tag)
 		if c.CountRule("R17f") == 0 {
-			importRules(c, "C04", map[string]string{"R04i": "R17f", "R04n": "R17f"})
+			// R04g (constructor agreement, incl. the trimmed split input): when the final predicate is not split off, the
+			// open-time test fails for every node and, with a negated predicate, every node is retained (seeds C17-2, C17-9)
+			importRules(c, "C04", map[string]string{"R04i": "R17f", "R04n": "R17f", "R04g": "R17f"})
 			c.Floor("R17f", 6, "marking / delivering / rejecting decisions of the two stream readers")
 		}
 	})
